@@ -232,4 +232,10 @@ def kmeansInit (street k : Nat) (points : List (Nat × List Nat)) : Option (List
           go x' pot' (i :: chosen) f
   go (xoSeed (seedOfStreet street)) (List.replicate n 1.0) [] k
 
+/-- `Layer::init`: on the preflop street nothing is clustered — `assert!(n == k)` and the points themselves
+are returned as the centroids, in order; on every other street the k-means++ seeding above -/
+def layerInit (street k : Nat) (points : List (Nat × List Nat)) : Option (List Nat) :=
+  if street = 0 then (if points.length = k then some (List.range k) else none)
+  else kmeansInit street k points
+
 end RP.Sampler
